@@ -2438,7 +2438,7 @@ def c17(rep, tier, seed, wd, replay):
 
 THEOREMS.update({
     "C12": ("Dirk.Props.C12", ["Dirk.Dkg.C12_share_consistent", "Dirk.Dkg.C12_same_key", "Dirk.Dkg.C12_recover", "Dirk.Dkg.C12_fewer_fail",
-                               "Dirk.Dkg.C12_bounds", "Dirk.Dkg.C12_protocol_success", "Dirk.Dkg.C12_generation_succeeds"]),
+                               "Dirk.Dkg.C12_bounds", "Dirk.Dkg.C12_protocol_success", "Dirk.Dkg.C12_generation_succeeds", "Dirk.Dkg.C12_kernel_is_source"]),
     "C20": ("Dirk.Props.C20", ["Dirk.C20_sites_covered", "Dirk.C20_domain_slice_safe", "Dirk.C20_alloc_bounded", "Dirk.C20_dkg_non_peer",
                                "Dirk.C20_handlers_shape", "Dirk.C20_legacy_counterexample"]),
     "C19": ("Dirk.Props.C19", ["Dirk.C19_policy", "Dirk.C19", "Dirk.facts_tls_clientAuth", "Dirk.facts_tls_minVersion", "Dirk.facts_tls_clientCAs",
@@ -2446,7 +2446,7 @@ THEOREMS.update({
     "C18": ("Dirk.Props.C18Whole", ["Dirk.C18_sound", "Dirk.C18_complete", "Dirk.C18_fields", "Dirk.C18_dynamic",
                                     "Dirk.C18_complete_whole_name", "Dirk.C18_anchor_only_widens"]),
     "C14": ("Dirk.Props.C14", ["Dirk.C14", "Dirk.C14_proposals", "Dirk.C14_threshold_from_generation"]),
-    "C13": ("Dirk.Props.C13", ["Dirk.Dkg.C13_reject", "Dirk.Dkg.C13_no_account", "Dirk.Dkg.C13_legacy_counterexample"]),
+    "C13": ("Dirk.Props.C13", ["Dirk.Dkg.C13_reject", "Dirk.Dkg.C13_no_account", "Dirk.Dkg.C13_legacy_counterexample", "Dirk.Dkg.C13_kernel_is_source"]),
     "C16": ("Dirk.Props.C16", ["Dirk.Dkg.C16_refuse_non_peer", "Dirk.Dkg.C16_share_owner"]),
     "C17": ("Dirk.Props.C17", ["Dirk.Dkg.C17_prepare_twice", "Dirk.Dkg.C17_requires_active", "Dirk.Dkg.C17_gone_after",
                                "Dirk.Dkg.C17_commit_complete", "Dirk.Dkg.C17_independent_names", "Dirk.Dkg.C17_lifecycle_all_histories",
@@ -2465,7 +2465,7 @@ THEOREMS.update({
     "C10": ("Dirk.Props.C10", ["Dirk.C10_never_lowers", "Dirk.C10_protects", "Dirk.C10_composes", "Dirk.C10_refuses_after_prop",
                                "Dirk.C10_refuses_after_att", "Dirk.C10_bad_metadata", "Dirk.C10_parse_error_no_change",
                                "Dirk.C10_legacy_counterexample"]),
-    "C07": ("Dirk.Props.C07Refine", ["Dirk.C07_check_refines_spec", "Dirk.C07_served_has_bearing", "Dirk.C07_scan_eq_spec", "Dirk.C07_default_deny", "Dirk.C07_unknown_client", "Dirk.C07_no_identity",
+    "C07": ("Dirk.Props.C07Refine", ["Dirk.C07_kernel_is_source", "Dirk.C07_check_refines_spec", "Dirk.C07_served_has_bearing", "Dirk.C07_scan_eq_spec", "Dirk.C07_default_deny", "Dirk.C07_unknown_client", "Dirk.C07_no_identity",
                                "Dirk.C07_refused_no_effect_att", "Dirk.C07_refused_no_effect_prop", "Dirk.C07_refused_no_effect_sign",
                                "Dirk.C07_refused_no_effect_atts", "Dirk.C07_resolved_account", "Dirk.C07_legacy_counterexample",
                                "Dirk.C07_fixed_alternation", "Dirk.C07_whole_name", "Dirk.C07_entry_matches_spec",
